@@ -57,7 +57,7 @@ func init() {
 	register(&Rule{
 		Name:  "LOCK-CONSISTENCY",
 		IR:    "ssa",
-		Props: []string{"C35"},
+		Props: []string{"C35", "C09"},
 		// non-info obligations on today's tree: encoding 5 (Buffer.WriteAt, ByteArraysBuilder.WriteItem,
 		// StringTableBuilder.Add, Write x2), ingest 5 (watcher x2, MutableWorlds x3), ingest/compact 15
 		Floor:   25,
